@@ -103,4 +103,12 @@ theorem notes_part_witness :
       .ok [[], [lit "footnote1)\t", lit "<latex>z</latex>"], [lit "footnote2)\t", lit "n2"], [lit "<latex>z</latex>"]] := by
   decide +kernel
 
+/-- non-vacuity of `C02_document` / `C02_part_decidable`: `w:document` > `w:body` > (paragraph, display equation, two
+paragraphs) meets every hypothesis, and the tree it yields -/
+def fullDoc : Xml := el 100 "document" [] none [strayDoc]
+theorem document_witness :
+    partItemsOK fullDoc = true ∧ fullDoc.ptag = documentTag ∧ strayDoc.ptag = bodyTag ∧
+    (newDepthCollector cfg [] fullDoc >>= runStrs) = .ok [[lit "a"], [lit "<latex>z</latex>"], [lit "b"], [lit "c"]] := by
+  decide +kernel
+
 end D2P.Ex
